@@ -97,9 +97,22 @@
   Recorded amendment of the statement: `C10_full` now carries what the library API guarantees —
   `CfgWF cfg` (catalog entries filed under their apex, non-empty RRsets), `512 ≤ cfg.payload ≤ 65535`
   (the payload size is a `u16` ≥ 512 in the API), `req.size ≤ usize::MAX` — as `C09_full` does.
-  Proved: (a)–(i).  Not proved, precisely:
+  Recorded correction of the statement: `C10_full` also carries `KeysOK cfg.keys` — every configured
+  key name is a well-formed wire name in lower case, the API's `LowercaseName` (the comment on
+  `Server.Key.name`).  Without it the statement is false: the model looks a key up by comparing
+  `k.name` octet for octet with the lower-cased key name of the request, the audit's `findKey` compares
+  labels ignoring case; a key configured as "Key." is never found by the model (BADKEY) but is found by
+  the audit (`authenticated`), and the audit tags the response.  No hypothesis on the *request's* key
+  name is needed: the model lower-cases it (`ReadTsigRr::try_from`), so the prepared RR's key name is
+  in lower case and C11's digest equation applies (`C10_response_mac_eq_rfc`).
+  (m) the audit, row by row.  `AuditRun` packages what the walk through `auditResponse` starts from
+      (`auditRun_exists`: every request whose scan reaches a TSIG record has one; `audit_eq_of_run`:
+      its audit is `auditResponse` on the model's view).  `C10_audit_nofit`: row 4 (the reply TSIG does
+      not fit), whatever the outcome — the audit returns no tag.
+
+  Proved: (a)–(m).  Not proved, precisely:
   (1) `C10_full` itself.  Of the audit, the clauses of `auditResponse` *after* the response is decoded
-      remain, all of which need first
+      remain for rows 1–3 (row 4 is closed: `C10_audit_nofit`), all of which need first
       (1a) (closed: `C10_request_view`, (j)) the request-side link: `viewRequest` (the audit's own walk
            to the TSIG RR: `findTsig`, `specDecodeName`, `labelsOf`, `parseRdata`, the request prefix)
            yields the key name, RDATA fields and prefix of the model's `t` / `mw` of the same `TsigRun`;
@@ -147,6 +160,7 @@ import QV.Proofs.ServerSignedNoFit
 import QV.Proofs.RequestFields
 import QV.Proofs.RequestOutcome
 import QV.Proofs.RequestFits
+import QV.Proofs.AuditWalk
 import QV.Proofs.ServerSignedTable
 
 namespace QV.C10
@@ -176,6 +190,8 @@ def C10_full : Prop :=
     now < 2 ^ 48 →
     -- what the library API guarantees (recorded amendment, see the header)
     ServerSafety.CfgWF cfg → 512 ≤ cfg.payload → cfg.payload ≤ 65535 → req.size ≤ Rdata.USIZE_MAX →
+    -- correction (see the header): configured key names are `LowercaseName`s
+    ServerScan.KeysOK cfg.keys →
     let resp := handleMessage cfg tr now 65535 req
     let plain := match Spec.ServerTsig.stripTsigRr req with
       | some p => toResp (handleMessage cfg tr now 65535 p)
@@ -1181,6 +1197,124 @@ theorem C10_audit_fits (cfg : Cfg) (tr : Transport) (bufLen : Nat) (req : Bytes)
        | .udp => (Spec.Server.specScanWith (catKind cfg) cfg.payload req).limitUdp
        | .tcp => 65535) :=
   tsigFits_iff cfg tr bufLen req hbuf hpay hr mode rr
+
+/-! ## (m) the audit, row by row -/
+
+open QV.ServerScan in
+/-- what the walk through `auditResponse` starts from, for one run: the scan of the audit reaches a
+    TSIG record, the run of `handle_message` (`TsigRun`), and the audit's view of the request in the
+    model's terms (`C10_audit_outcome`) -/
+structure AuditRun (cfg : Cfg) (cat : List Spec.Server.ZoneCfg) (tr : Transport) (now : Nat) (req : Bytes)
+    (nowT : TimeSigned) (t : ReadTsigRr) (mw : Bytes) (r' : Reader.Reader) (question : Option (WName × Nat × Nat))
+    (d : Spec.Server.Delim) (kn alg : WName) (rest : List UInt8) : Prop where
+  respond : (Spec.Server.specScan cat cfg.payload req).respond = true
+  verdict : (Spec.Server.specScan cat cfg.payload req).verdict = .tsigReached
+  hnow : TimeSigned.tryFromUnix now = some nowT
+  hrun : ServerContent.TsigRun cfg tr now 65535 req t mw r' question
+  hkn : kn.WF
+  halg : alg.WF
+  hmw : mw = req.extract 0 d.pos
+  ht : t = viewRr kn alg rest
+  hview : Spec.ServerTsig.viewRequest hmSpec (specKeys cfg.keys) req now =
+    some ⟨kn.labels, fieldsOf alg.labels rest, mw.toList, modelOutcome cfg.keys nowT kn alg rest mw.toList,
+      Spec.ServerTsig.findKey (specKeys cfg.keys) kn.labels⟩
+
+open QV.ServerScan in
+/-- every request whose scan (the audit's) reaches a TSIG record has an `AuditRun` -/
+theorem auditRun_exists (cfg : Cfg) (cat : List Spec.Server.ZoneCfg) (tr : Transport) (now : Nat) (req : Bytes)
+    (hnow : now < 2 ^ 48) (hpay : 512 ≤ cfg.payload) (hp16 : cfg.payload ≤ 65535) (hreq : req.size ≤ Rdata.USIZE_MAX)
+    (hk : KeysOK cfg.keys)
+    (hr : (Spec.Server.specScan cat cfg.payload req).respond = true)
+    (hv : (Spec.Server.specScan cat cfg.payload req).verdict = .tsigReached) :
+    ∃ nowT t mw r' question d kn alg rest, AuditRun cfg cat tr now req nowT t mw r' question d kn alg rest := by
+  obtain ⟨a1, a2⟩ := C10_audit_scan_agrees cfg cat req
+  have hnT : ∃ nowT, TimeSigned.tryFromUnix now = some nowT := by
+    unfold TimeSigned.tryFromUnix; rw [if_pos hnow]; exact ⟨_, rfl⟩
+  obtain ⟨nowT, hnT⟩ := hnT
+  obtain ⟨t, mw, r', question, d, kn, alg, rest, h1, _, h3, h4, h5, _, h7, h8⟩ :=
+    C10_audit_outcome cfg tr now 65535 req (minBuf_le tr _ hp16) hpay hreq (by rw [← a1]; exact hr) (a2.mp hv) hk nowT hnT
+  exact ⟨nowT, t, mw, r', question, d, kn, alg, rest, hr, hv, hnT, h1, h3, h4, h5, h7, h8⟩
+
+open QV.ServerScan in
+/-- the audit of such a request is `auditResponse` on the view -/
+theorem audit_eq_of_run {cfg : Cfg} {cat : List Spec.Server.ZoneCfg} {tr : Transport} {now : Nat} {req : Bytes}
+    {nowT : TimeSigned} {t : ReadTsigRr} {mw : Bytes} {r' : Reader.Reader} {question : Option (WName × Nat × Nat)}
+    {d : Spec.Server.Delim} {kn alg : WName} {rest : List UInt8}
+    (h : AuditRun cfg cat tr now req nowT t mw r' question d kn alg rest) (r plain : Spec.ServerTsig.Resp) :
+    Spec.ServerTsig.audit hmSpec cat cfg.payload (specKeys cfg.keys) req now (tr = .udp) r plain =
+      Spec.ServerTsig.auditResponse hmSpec (Spec.Server.specScan cat cfg.payload req)
+        ⟨kn.labels, fieldsOf alg.labels rest, mw.toList, modelOutcome cfg.keys nowT kn alg rest mw.toList,
+          Spec.ServerTsig.findKey (specKeys cfg.keys) kn.labels⟩ now (tr = .udp) (Spec.Server.hdr req 0) r plain := by
+  unfold Spec.ServerTsig.audit
+  simp only [h.respond, h.verdict, h.hview, Bool.not_true, Bool.false_eq_true, if_false, ne_eq, not_true_eq_false]
+
+open QV.ServerScan in
+/-- **audit clause "nofit-\*"** (row 4): when the reply TSIG does not fit, the audit's `fits` is false
+    too (`C10_audit_fits`, `reserved_of_stop` / `reserved_of_auth`), and the response — TC set, extended
+    RCODE 0, no data, no TSIG record (`C10_decoded_tsig_does_not_fit`, with the OPT's extended-RCODE
+    octet 0: `signed_nofit_final_upper`) — gets no tag -/
+theorem C10_audit_nofit (cfg : Cfg) (cat : List Spec.Server.ZoneCfg) (tr : Transport) (now : Nat) (req : Bytes)
+    (hpay : 512 ≤ cfg.payload) (hp16 : cfg.payload ≤ 65535)
+    {nowT : TimeSigned} {t : ReadTsigRr} {mw : Bytes} {r' : Reader.Reader} {question : Option (WName × Nat × Nat)}
+    {d : Spec.Server.Delim} {kn alg : WName} {rest : List UInt8}
+    (h : AuditRun cfg cat tr now req nowT t mw r' question d kn alg rest)
+    (hrow : ServerContent.RowNoFit cfg tr now 65535 req t mw)
+    (b : Bytes) (hb : handleMessage cfg tr now 65535 req = .ok (some b)) (plain : Spec.ServerTsig.Resp) :
+    (Spec.ServerTsig.audit hmSpec cat cfg.payload (specKeys cfg.keys) req now (tr = .udp)
+      (toResp (handleMessage cfg tr now 65535 req)) plain).1 = [] := by
+  obtain ⟨a1, a2⟩ := C10_audit_scan_agrees cfg cat req
+  have hrM : (Spec.Server.specScanWith (catKind cfg) cfg.payload req).respond = true := by rw [← a1]; exact h.respond
+  obtain ⟨_, _, hind⟩ := ServerContent.specScanWith_tsig_indep
+    (fun qn qc => (Spec.Server.specCatalogLookup cat qn qc).map (·.kind)) (catKind cfg) cfg.payload req
+  have hind' : (Spec.Server.specScan cat cfg.payload req).question =
+        (Spec.Server.specScanWith (catKind cfg) cfg.payload req).question ∧
+      (Spec.Server.specScan cat cfg.payload req).edns = (Spec.Server.specScanWith (catKind cfg) cfg.payload req).edns ∧
+      (Spec.Server.specScan cat cfg.payload req).limitUdp =
+        (Spec.Server.specScanWith (catKind cfg) cfg.payload req).limitUdp := hind h.verdict
+  clear hind
+  obtain ⟨iq, ie, il⟩ := hind'
+  rw [audit_eq_of_run h, hb]
+  simp only [toResp]
+  obtain ⟨nowT', kn', hn', hkn', hnf⟩ := hrow
+  rw [h.hnow] at hn'; cases hn'
+  have hkw : kn'.wire.length = kn.wire.length := by
+    rw [ServerAnswer.parse_wire _ _ hkn', h.ht]; show (Tsig.lowerName kn.wire).length = _; simp [Tsig.lowerName]
+  obtain ⟨F, mac, hf, hG, hts, he, hh⟩ := ServerContent.signed_nofit_final_upper cfg tr now 65535 req (minBuf_le tr _ hp16)
+    hpay hp16 hrM t mw r' question h.hrun nowT kn' h.hnow hkn' hnf b hb
+  obtain ⟨dm, hdm⟩ := ServerContent.decodes_of_good F _ hG b mac hf
+  obtain ⟨r1, r2, _, r4, r5, _, r7⟩ := ServerContent.decoded_nofit F _ (qBody_norecs _) hG hts hh b mac hf dm hdm
+  obtain ⟨hq1, hq2, hq3⟩ := qBody_norecs (Spec.Server.specScanWith (catKind cfg) cfg.payload req).question
+  obtain ⟨_, c2, _, _⟩ := opt_of_good macFn F _ hG (by rw [hq3]; simp) b mac hf dm hdm
+  refine auditResponse_nofit hmSpec _ _ now _ _ b plain dm hdm ?_ r1 r2 ?_ ?_ ?_
+  · -- does not fit
+    rw [auditNeed_eq _ _ iq ie kn alg h.hkn h.halg, auditLimit_eq _ _ il tr]
+    rcases hnf with ⟨an, rc, mode, rr, han, hrep, hnfit⟩ | ⟨a, key, ha, hk, hver, hnfit⟩
+    · have haw : an.wire.length = alg.wire.length := by
+        rw [ServerAnswer.parse_wire _ _ han, h.ht]; show (Tsig.lowerName alg.wire).length = _; simp [Tsig.lowerName]
+      rw [h.ht] at hrep
+      rw [← reserved_of_stop cfg.keys nowT kn alg h.halg rest mw.toList kn' an hkw haw rc mode rr hrep]
+      exact fun hle => hnfit ((C10_audit_fits cfg tr 65535 req (minBuf_le tr _ hp16) hpay hrM mode rr).mpr
+        (by cases tr <;> exact hle))
+    · rw [h.ht] at ha hk hver hnfit
+      have hmo := modelOutcome_authenticated cfg.keys nowT kn alg rest mw.toList a key ha hk hver
+      rw [hmo, ← reserved_of_auth kn alg h.halg kn' hkw a ha (viewRr kn alg rest).mac key.secret (viewRr kn alg rest) nowT]
+      exact fun hle => hnfit ((C10_audit_fits cfg tr 65535 req (minBuf_le tr _ hp16) hpay hrM _ _).mpr
+        (by cases tr <;> exact hle))
+  · -- no data
+    unfold Spec.Server.noData
+    rw [r4, r5]
+    simp only [List.isEmpty_nil, Bool.true_and, List.all_eq_true]
+    intro o ho; simp [r7 o ho]
+  · -- the OPT's extended-RCODE octet
+    intro o ho hty
+    obtain ⟨e, hee, _, _, q3⟩ := c2 o ho hty
+    rw [he] at hee
+    split at hee
+    · simp only [Option.some.injEq] at hee; subst hee; rw [q3]; simp
+    · cases hee
+  · -- no TSIG record
+    rw [List.filter_eq_nil_iff]
+    intro o ho; simp [r7 o ho]
 
 /-! ## non-vacuity: concrete instances of the hypotheses used above -/
 
